@@ -388,7 +388,123 @@ Proof.
   - intros e He. destruct (Hentry e He) as [(t & Ee & _)|(Ee & _)]; rewrite Ee; reflexivity.
 Qed.
 
+(* everything later lemmas need about the rebuilt index *)
+Lemma gc_index_full (kl : bool) :
+  exists ix' g,
+    gc_index succ subject manifest cfg_fixed kl ords st = Some (ix', g) /\
+    (forall x, In x g <-> Live x) /\
+    (forall t n, In (RTag t, n) ix' <-> In (RTag t, n) ix) /\
+    (forall d r, In (RDig d, r) ix' ->
+       d = r /\ ((exists t, In (RTag t, r) ix) \/ (exists d', In (RDig d', r) ix))) /\
+    (forall d r s, In (RDig d, r) ix -> Chain bl r s -> Live s -> manifest s = true ->
+       In (RDig r, r) ix') /\
+    (forall t n, In (RTag t, n) ix -> In (RDig n, n) ix') /\
+    (forall t n, ~ In (RStale t, n) ix').
+Proof.
+  destruct (gc_index_spec kl) as (ix1 & g1 & E1 & HL & HT).
+  destruct (gc_passes_spec (S (length (candidates ix))) 0 _ [] GInv_init ltac:(simpl; lia))
+    as (g & kept & Hp & I & Hfin).
+  assert (E2 : gc_index succ subject manifest cfg_fixed kl ords st =
+    Some (filter (fun e => match fst e with RTag _ => true | _ => false end) ix ++
+          map (fun n => (RDig n, n))
+            (dedup (tagged_nodes ix) ++ kept ++
+             (if kl then filter (fun n => memb n g) (digested ix) else [])), g)).
+  { unfold gc_index. fold ix bl. change (clo succ manifest cfg_fixed bl) with (closure succ bl).
+    rewrite Hp. reflexivity. }
+  rewrite E2 in E1. injection E1 as <- <-.
+  eexists _, g. split; [exact E2|]. split; [exact HL|]. split; [exact HT|].
+  split; [|split; [|split]].
+  - intros d r H. apply in_app_or in H as [H|H].
+    + apply filter_In in H as [_ H]. discriminate.
+    + apply in_map_iff in H as (n & E & Hn). injection E as <- <-. split; [reflexivity|].
+      apply in_app_or in Hn as [Hn|Hn].
+      * left. apply (proj1 (dedup_In _ _)) in Hn. now apply tagged_nodes_In.
+      * apply in_app_or in Hn as [Hn|Hn].
+        -- right. apply (gi_cand _ _ I) in Hn. apply candidates_In in Hn. tauto.
+        -- right. destruct kl; [|destruct Hn]. apply filter_In in Hn as [Hn _].
+           unfold digested in Hn. apply in_flat_map in Hn as ([r' m] & He & Hm). simpl in Hm.
+           destruct r'; simpl in Hm; try contradiction. destruct Hm as [<-|[]]. eauto.
+  - intros d r s Hd Hc Hs Hm. apply in_or_app. right. apply in_map_iff. exists r.
+    split; [reflexivity|].
+    destruct (in_dec Nat.eq_dec r (tagged_nodes ix)) as [Ht|Ht].
+    + apply in_or_app. left. now apply dedup_In.
+    + apply in_or_app. right. apply in_or_app. left.
+      assert (Hcand : In r (candidates ix)) by (apply candidates_In; eauto).
+      destruct (Hfin r Hcand) as [Hk|Hno]; [assumption|]. exfalso. apply Hno. exists s.
+      split; [assumption|]. split; [now apply HL|assumption].
+  - intros t n Ht. apply in_or_app. right. apply in_map_iff. exists n. split; [reflexivity|].
+    apply in_or_app. left. apply dedup_In. apply tagged_nodes_In. eauto.
+  - intros t n H. apply in_app_or in H as [H|H].
+    + apply filter_In in H as [_ H]. discriminate.
+    + apply in_map_iff in H as (m & E & _). discriminate.
+Qed.
+
 End GC.
+
+(* The live set depends only on the tags, on which descriptors have a by-digest reference and
+   on the stored content that is live: a state whose references were rebuilt by gcIndex and
+   whose storage lost only garbage has the same live set. *)
+Lemma Reach_mono bl bl' n x : (forall y, In y bl -> In y bl') -> Reach bl n x -> Reach bl' n x.
+Proof.
+  intros Hs H. induction H as [n Hn|n s x Hn Hsn _ IH]; [apply R_refl; auto|eapply R_step; eauto].
+Qed.
+
+Lemma Reach_within bl bl' n x :
+  Reach bl n x -> (forall y, Reach bl n y -> In y bl') -> Reach bl' n x.
+Proof.
+  intro H. induction H as [n Hn|n s x Hn Hs Hr IH]; intro Hy.
+  - apply R_refl. apply Hy. now apply R_refl.
+  - eapply R_step; [apply Hy; now apply R_refl|exact Hs|]. apply IH. intros y Hry. apply Hy.
+    eapply R_step; eauto.
+Qed.
+
+Lemma Chain_mono bl bl' r s : (forall y, In y bl -> In y bl') -> Chain bl r s -> Chain bl' r s.
+Proof.
+  intros Hs H. induction H as [r s Hr E|r m s Hr E _ IH]; [apply C_one; auto|eapply C_step; eauto].
+Qed.
+
+Lemma Live_reach st n x : Live st n -> Reach (blobs st) n x -> Live st x.
+Proof.
+  intros HL Hr. destruct HL as [t r n Ht Hrn|d r s n Hd Hc Hs Hm Hrn].
+  - eapply L_tag; eauto. clear -Hrn Hr. induction Hrn; [assumption|eapply R_step; eauto].
+  - eapply L_ref; eauto. clear -Hrn Hr. induction Hrn; [assumption|eapply R_step; eauto].
+Qed.
+
+Lemma Chain_within st r s :
+  Chain (blobs st) r s -> Live st r -> forall bl', (forall y, Live st y -> In y bl') -> Chain bl' r s.
+Proof.
+  intros H. induction H as [r s Hr E|r m s Hr E Hc IH]; intros HL bl' Hb.
+  - apply C_one; auto.
+  - eapply C_step; eauto. apply IH; [|assumption].
+    eapply Live_reach; [exact HL|]. eapply (R_step _ r m m); [exact Hr|apply subj_succ; exact E|].
+    apply R_refl. inversion Hc; assumption.
+Qed.
+
+Lemma Live_rebuilt st st' :
+  (forall t n, In (RTag t, n) (idx st') <-> In (RTag t, n) (idx st)) ->
+  (forall d r, In (RDig d, r) (idx st') ->
+     (exists t, In (RTag t, r) (idx st)) \/ (exists d', In (RDig d', r) (idx st))) ->
+  (forall d r s, In (RDig d, r) (idx st) -> Chain (blobs st) r s -> Live st s -> manifest s = true ->
+     In (RDig r, r) (idx st')) ->
+  (forall x, In x (blobs st') -> In x (blobs st)) ->
+  (forall x, Live st x -> In x (blobs st')) ->
+  forall x, Live st' x <-> Live st x.
+Proof.
+  intros HT HD1 HD2 Hsub Hkeep x. split.
+  - induction 1 as [t n x Ht Hr|d r s x Hd Hc _ IHs Hm Hr].
+    + eapply L_tag; [apply HT; exact Ht|]. eapply Reach_mono; eauto.
+    + apply (Reach_mono _ _ _ _ Hsub) in Hr. destruct (HD1 d r Hd) as [(t & Ht)|(d' & Hd')].
+      * eapply L_tag; eauto.
+      * eapply L_ref; eauto. eapply Chain_mono; eauto.
+  - induction 1 as [t n x Ht Hr|d r s x Hd Hc Hs IHs Hm Hr].
+    + eapply L_tag; [apply HT; exact Ht|]. apply (Reach_within _ _ _ _ Hr).
+      intros y Hy. apply Hkeep. eapply L_tag; eauto.
+    + assert (HLr : Live st r).
+      { eapply L_ref; eauto. apply R_refl. eapply Reach_start; eauto. }
+      eapply (L_ref st' r r s x); [eapply HD2; eauto| |exact IHs|exact Hm|].
+      * eapply Chain_within; eauto.
+      * apply (Reach_within _ _ _ _ Hr). intros y Hy. apply Hkeep. eapply Live_reach; eauto.
+Qed.
 
 (* GC of the repaired code: terminates with Ok for every state and every order,
    the rebuilt graph and the surviving blobs are exactly the live set, tags are
@@ -417,6 +533,72 @@ Proof.
   - apply filter_In in H. tauto.
   - apply filter_In in H as [_ H]. unfold sweep_stray in H. now apply negb_true_iff in H.
   - intros [H1 H2]. apply filter_In. split; [assumption|]. unfold sweep_stray. now rewrite H2.
+Qed.
+
+(* a state whose reference map was rebuilt by gcIndex and whose storage lost only garbage has
+   the live set of the state before *)
+Lemma live_after_rebuild kl ords st st' g :
+  (forall i n, In n (ords i) <-> In n (candidates (idx st))) ->
+  gc_index succ subject manifest cfg_fixed kl ords st = Some (idx st', g) ->
+  (forall x, In x (blobs st') -> In x (blobs st)) ->
+  (forall x, Live st x -> In x (blobs st')) ->
+  forall x, Live st' x <-> Live st x.
+Proof.
+  intros Ho Hg Hsub Hkeep.
+  destruct (gc_index_full st ords Ho kl) as (ix' & g' & Hg' & _ & HT & D1 & D2 & _).
+  rewrite Hg in Hg'. injection Hg' as <- <-.
+  apply Live_rebuilt; try assumption.
+  intros d r Hd. now destruct (D1 d r Hd).
+Qed.
+
+(* GC whose context is cancelled in the sweep after [k] entries of the directory order: the
+   index is rebuilt exactly as by a complete GC, no live blob is removed, what is removed is
+   garbage among the handled entries, and the live set is unchanged *)
+Lemma gc_cancel_spec : forall kl ords order k st,
+  (forall i n, In n (ords i) <-> In n (candidates (idx st))) ->
+  exists st',
+    gc_cancel succ subject manifest cfg_fixed kl ords order k st = (st', ECanceled) /\
+    idx st' = idx (fst (gc succ subject manifest cfg_fixed kl ords st)) /\
+    gnodes st' = gnodes (fst (gc succ subject manifest cfg_fixed kl ords st)) /\
+    (forall x, In x (gnodes st') <-> Live st x) /\
+    (forall x, In x (blobs st') <->
+               In x (blobs st) /\ (Live st x \/ swept_blob x (firstn k order) = false)) /\
+    (forall s, In s (strays st') <->
+               In s (strays st) /\ (s_known s && s_valid s = false \/
+                                    swept_stray (s_id s) (firstn k order) = false)) /\
+    autogc st' = autogc st /\
+    (forall x, Live st' x <-> Live st x).
+Proof.
+  intros kl ords order k st Ho. unfold gc_cancel, gc.
+  destruct (gc_index_spec st ords Ho kl) as (ix' & g & Hg & HL & Ht). rewrite Hg.
+  eexists. split; [reflexivity|]. cbn [fst idx gnodes blobs strays autogc].
+  assert (Hb : forall x, In x (filter (fun n => memb n g || negb (swept_blob n (firstn k order))) (blobs st)) <->
+               In x (blobs st) /\ (Live st x \/ swept_blob x (firstn k order) = false)).
+  { intro x. rewrite filter_In, orb_true_iff, negb_true_iff, memb_In, HL. tauto. }
+  split; [reflexivity|]. split; [reflexivity|]. split; [intro x; rewrite dedup_In; apply HL|].
+  split; [exact Hb|]. split; [|split; [reflexivity|]].
+  - intro s. rewrite filter_In, orb_true_iff, negb_true_iff. unfold sweep_stray.
+    rewrite negb_true_iff. tauto.
+  - eapply (live_after_rebuild kl ords st _ g Ho); cbn [idx blobs].
+    + exact Hg.
+    + intros x Hx. apply Hb in Hx. tauto.
+    + intros x Hx. apply Hb. split; [eapply Live_in; eauto|now left].
+Qed.
+
+(* the live set of the state after a complete GC is the live set before: GC is idempotent *)
+Lemma gc_live_same : forall kl ords st,
+  (forall i n, In n (ords i) <-> In n (candidates (idx st))) ->
+  forall x, Live (fst (gc succ subject manifest cfg_fixed kl ords st)) x <-> Live st x.
+Proof.
+  intros kl ords st Ho.
+  destruct (gc_cancel_spec kl ords [] 0 st Ho) as (sc & Hc & Ei & _ & _ & Hb & _ & _ & _).
+  destruct (gc_exact kl ords st Ho) as (st' & Hg & _ & Hb' & _).
+  unfold gc in *. destruct (gc_index_spec st ords Ho kl) as (ix' & g & Hgi & HL & _).
+  rewrite Hgi in *. injection Hg as <-. cbn [fst].
+  apply (live_after_rebuild kl ords st _ g Ho); cbn [idx blobs].
+  - exact Hgi.
+  - intros x Hx. apply filter_In in Hx. tauto.
+  - intros x Hx. apply filter_In. split; [eapply Live_in; eauto|]. apply memb_In. now apply HL.
 Qed.
 
 (* every live node keeps exactly its live predecessors *)
@@ -978,11 +1160,6 @@ Proof.
   f_equal. apply IH. intros x Hx. apply H. now right.
 Qed.
 
-Lemma Reach_mono bl bl' n x : (forall y, In y bl -> In y bl') -> Reach bl n x -> Reach bl' n x.
-Proof.
-  intros Hs H. induction H as [n Hn|n s x Hn Hsn _ IH]; [apply R_refl; auto|eapply R_step; eauto].
-Qed.
-
 Lemma Reach_inside bl (g : list nat) n x :
   (forall y s, In y g -> In s (succ y) -> In s bl -> In s g) ->
   Reach bl n x -> In n g ->
@@ -1530,4 +1707,77 @@ Proof.
   intros succ subject manifest st x ord c Hx. split; [now apply delete_absent|].
   rewrite (delete_absent_state succ subject manifest st x ord c Hx). cbn [blobs gnodes idx].
   split; [now apply removeb_absent|split; reflexivity].
+Qed.
+
+(* ---- GC cancelled in the sweep, resumed, repeated ---- *)
+Lemma gc_cancel_final : forall succ subject manifest,
+  acyclic succ -> subject_listed succ subject ->
+  forall kl ords order k st, same_elements ords (candidates (idx st)) ->
+  exists st',
+    gc_cancel succ subject manifest cfg_fixed kl ords order k st = (st', ECanceled) /\
+    idx st' = idx (fst (gc succ subject manifest cfg_fixed kl ords st)) /\
+    gnodes st' = gnodes (fst (gc succ subject manifest cfg_fixed kl ords st)) /\
+    (forall x, In x (gnodes st') <-> Live succ subject manifest st x) /\
+    (forall x, In x (blobs st') <->
+               In x (blobs st) /\ (Live succ subject manifest st x \/ swept_blob x (firstn k order) = false)) /\
+    (forall s, In s (strays st') <->
+               In s (strays st) /\ (s_known s && s_valid s = false \/
+                                    swept_stray (s_id s) (firstn k order) = false)) /\
+    autogc st' = autogc st /\
+    (forall x, Live succ subject manifest st' x <-> Live succ subject manifest st x).
+Proof. intros succ subject manifest H1 H2. exact (gc_cancel_spec succ subject manifest H1 H2). Qed.
+
+Lemma gc_resume_final : forall succ subject manifest,
+  acyclic succ -> subject_listed succ subject ->
+  forall kl ords order k st ords2,
+  same_elements ords (candidates (idx st)) ->
+  let sc := fst (gc_cancel succ subject manifest cfg_fixed kl ords order k st) in
+  same_elements ords2 (candidates (idx sc)) ->
+  let s1 := fst (gc succ subject manifest cfg_fixed kl ords st) in
+  let s2 := fst (gc succ subject manifest cfg_fixed kl ords2 sc) in
+  snd (gc succ subject manifest cfg_fixed kl ords2 sc) = Ok /\
+  (forall x, In x (blobs s2) <-> In x (blobs s1)) /\
+  (forall x, In x (gnodes s2) <-> In x (gnodes s1)) /\
+  (forall t n, In (RTag t, n) (idx s2) <-> In (RTag t, n) (idx s1)).
+Proof.
+  intros succ subject manifest H1 H2 kl ords order k st ords2 Ho sc Ho2 s1 s2.
+  destruct (gc_cancel_spec succ subject manifest H1 H2 kl ords order k st Ho)
+    as (sc' & Ec & _ & _ & _ & Hb & _ & _ & HLc).
+  assert (Esc : sc = sc') by (unfold sc; now rewrite Ec). subst sc'.
+  destruct (gc_exact succ subject manifest H1 H2 kl ords st Ho) as (t1 & E1 & G1 & B1 & T1 & _).
+  destruct (gc_exact succ subject manifest H1 H2 kl ords2 sc Ho2) as (t2 & E2 & G2 & B2 & T2 & _).
+  assert (Es1 : s1 = t1) by (unfold s1; now rewrite E1).
+  assert (Es2 : s2 = t2) by (unfold s2; now rewrite E2).
+  rewrite Es1, Es2. split; [now rewrite E2|]. split; [|split].
+  - intro x. rewrite B2, B1, Hb, HLc. tauto.
+  - intro x. rewrite G2, G1. apply HLc.
+  - intros t n. rewrite T2, T1.
+    destruct (gc_cancel_spec succ subject manifest H1 H2 kl ords order k st Ho)
+      as (sc'' & Ec' & Ei & _). assert (sc = sc'') by (unfold sc; now rewrite Ec'). subst sc''.
+    rewrite Ei, E1. cbn [fst]. apply T1.
+Qed.
+
+Lemma gc_idempotent_final : forall succ subject manifest,
+  acyclic succ -> subject_listed succ subject ->
+  forall kl ords st ords2,
+  same_elements ords (candidates (idx st)) ->
+  let s1 := fst (gc succ subject manifest cfg_fixed kl ords st) in
+  same_elements ords2 (candidates (idx s1)) ->
+  let s2 := fst (gc succ subject manifest cfg_fixed kl ords2 s1) in
+  (forall x, In x (blobs s2) <-> In x (blobs s1)) /\
+  (forall x, In x (gnodes s2) <-> In x (gnodes s1)) /\
+  (forall t n, In (RTag t, n) (idx s2) <-> In (RTag t, n) (idx s1)) /\
+  (forall s, In s (strays s2) <-> In s (strays s1)).
+Proof.
+  intros succ subject manifest H1 H2 kl ords st ords2 Ho s1 Ho2 s2.
+  pose proof (gc_live_same succ subject manifest H1 H2 kl ords st Ho) as HL. fold s1 in HL.
+  destruct (gc_exact succ subject manifest H1 H2 kl ords st Ho) as (t1 & E1 & G1 & B1 & T1 & S1 & _).
+  destruct (gc_exact succ subject manifest H1 H2 kl ords2 s1 Ho2) as (t2 & E2 & G2 & B2 & T2 & S2 & _).
+  assert (Es1 : s1 = t1) by (unfold s1; now rewrite E1).
+  assert (Es2 : s2 = t2) by (unfold s2; now rewrite E2).
+  rewrite Es2. split; [|split; [|split]].
+  - intro x. rewrite B2, HL. rewrite Es1, B1. tauto.
+  - intro x. rewrite G2, HL. rewrite Es1, G1. tauto.
+  - intros t n. rewrite T2. tauto.
+  - intro s. rewrite S2. rewrite Es1, S1. tauto.
 Qed.
